@@ -1,14 +1,187 @@
 /-
 C03 — triangulation tiles every simple polygon exactly.
+
+The theorems are about `Tri.triangulate` / `triangulate2d` / `triangulate2dRev` of Model/Tri.lean,
+the model of scad_tree::triangulate (same scan order, same predicates; the correspondence run
+compares its index list with the crate's on every generated polygon), instantiated at exact
+arithmetic (ℝ).  They hold for every vertex list, of any length, simple or not:
+
+* every index is a valid input index, the output is a whole number of triangles, at most n-2;
+* every triangle turns the way the polygon does at its left-most vertex (`orientation`);
+* area conservation: the signed areas of the triangles and of what is left of the polygon add up
+  to the polygon's signed area at every step, so a run that completes (n-2 triangles) produces
+  triangles that all have the polygon's sign and whose areas sum to exactly the polygon's area
+  (`complete_area`, `complete_ccw_positive`) — overlap-free covering is then equivalent to the
+  edge certificate the oracle checks on every implementation result.
+
+PARTIAL: that the loop completes on every *simple* polygon (Meisters' two-ears theorem plus
+soundness of the later-vertices-only scan) and that the certificate implies a tiling are plane
+topology, cited and not formalised; they are decided on the implementation by the oracle run.
 -/
-import ScadVerif.Lemmas.RealInst
-import ScadVerif.Model.Tri
-import ScadVerif.Spec.Mesh
+import ScadVerif.Lemmas.TriLemmas
 namespace ScadVerif.C03
-open ScadVerif ScadVerif.Tri
+open ScadVerif ScadVerif.Tri ScadVerif.TriLemmas ScadVerif.Spec
 
 /-- the triangle test is the sign of the shoelace cross product -/
-theorem isCcw_iff (a b c : Pt2 ℝ) : isCcw a b c = true ↔ 0 < cross3 a b c := by
+theorem isCcw_iff (a b c : Pt2 ℝ) : isCcw a b c = true ↔ 0 < Tri.cross3 a b c := by
   simp [isCcw]
+
+/-- labels of a polygon refer to positions of a vertex list -/
+def Consistent (vs : List (Pt2 ℝ)) (poly : Poly ℝ) : Prop :=
+  ∀ v ∈ poly, v.1 < vs.length ∧ vs.getD v.1 d0 = v.2
+
+theorem indexed_consistent (vs : List (Pt2 ℝ)) : Consistent vs (indexed vs) := by
+  intro v hv
+  obtain ⟨i, hi⟩ := List.mem_iff_getElem?.mp hv
+  simp only [indexed, List.getElem?_zip_eq_some, List.getElem?_range'] at hi
+  obtain ⟨h1, h2⟩ := hi
+  have hlt : i < vs.length := by
+    cases h : vs[i]? with
+    | none => rw [h] at h2; simp at h2
+    | some _ => exact (List.getElem?_eq_some_iff.mp h).1
+  simp only [List.range_eq_range', List.getElem?_range', hlt, if_true, Option.some.injEq] at h1
+  refine ⟨by omega, ?_⟩
+  rw [List.getD_eq_getElem?_getD, ← h1]
+  simp at h2 ⊢
+  simp [h2]
+
+theorem reverse_consistent (vs : List (Pt2 ℝ)) (poly : Poly ℝ) (h : Consistent vs poly) :
+    Consistent vs poly.reverse := fun v hv => h v (List.mem_reverse.mp hv)
+
+/-- the emitted triangles of a run of `triangulate` -/
+noncomputable def run (poly : Poly ℝ) : List (Tri3 ℝ) × Poly ℝ :=
+  clipRun poly.length poly (refCcw poly) []
+
+theorem triangulate_eq (poly : Poly ℝ) : triangulate poly = labels (run poly).1 := by
+  have := clip_eq poly.length poly (refCcw poly) ([] : List (Tri3 ℝ))
+  simpa [labels, triangulate, run] using this
+
+theorem labels_length (ts : List (Tri3 ℝ)) : (labels ts).length = 3 * ts.length := by
+  induction ts with
+  | nil => rfl
+  | cons t ts ih => simp [labels, triLabels] at ih ⊢; omega
+
+theorem triples_labels (ts : List (Tri3 ℝ)) : triples (labels ts) = ts.map triLabels := by
+  induction ts with
+  | nil => rfl
+  | cons t ts ih =>
+    simp only [labels, List.flatMap_cons, triLabels, List.map_cons] at ih ⊢
+    simp only [List.cons_append, List.nil_append, triples, ih]
+
+/-- **C03, indices.** Every emitted index is a position of the input vertex list. -/
+theorem triangulate_indices (vs : List (Pt2 ℝ)) (poly : Poly ℝ) (hc : Consistent vs poly) :
+    ∀ i ∈ triangulate poly, i < vs.length := by
+  rw [triangulate_eq]
+  intro i hi
+  simp only [labels, List.mem_flatMap] at hi
+  obtain ⟨t, ht, hit⟩ := hi
+  have hm := (clipRun_mem poly.length poly (refCcw poly)).1 t ht
+  simp only [triLabels, List.mem_cons, List.not_mem_nil, or_false] at hit
+  rcases hit with rfl | rfl | rfl
+  · exact (hc _ hm.1).1
+  · exact (hc _ hm.2.1).1
+  · exact (hc _ hm.2.2).1
+
+/-- **C03, count.** The output is a whole number of triangles: three indices for every vertex
+removed; never more than n-2 triangles. -/
+theorem triangulate_length (poly : Poly ℝ) :
+    (triangulate poly).length = 3 * (poly.length - (run poly).2.length) := by
+  have := clipRun_count poly.length poly (refCcw poly) ([] : List (Tri3 ℝ))
+  rw [triangulate_eq, labels_length]
+  simp only [run, List.length_nil, Nat.zero_add] at this ⊢
+  omega
+theorem triangulate_length_le (poly : Poly ℝ) (h : 2 ≤ poly.length) :
+    (triangulate poly).length ≤ 3 * (poly.length - 2) := by
+  have := clipRun_residual_ge poly.length poly (refCcw poly) ([] : List (Tri3 ℝ)) h
+  rw [triangulate_length]; simp only [run]; omega
+
+/-- **C03, orientation.** Every emitted triangle, read off the input vertex list by its three
+indices, turns the way the polygon turns at its left-most vertex. -/
+theorem triangulate_orientation (vs : List (Pt2 ℝ)) (poly : Poly ℝ) (hc : Consistent vs poly) :
+    ∀ t ∈ triples (triangulate poly), ∃ i j k, t = [i, j, k] ∧
+      isCcw (vs.getD i d0) (vs.getD j d0) (vs.getD k d0) = refCcw poly := by
+  rw [triangulate_eq, triples_labels]
+  intro t ht
+  obtain ⟨tr, htr, rfl⟩ := List.mem_map.mp ht
+  have hm := (clipRun_mem poly.length poly (refCcw poly)).1 tr htr
+  have ho := clipRun_orient poly.length poly (refCcw poly) tr htr
+  refine ⟨tr.1.1, tr.2.1.1, tr.2.2.1, rfl, ?_⟩
+  rw [(hc _ hm.1).2, (hc _ hm.2.1).2, (hc _ hm.2.2).2]; exact ho
+
+/-- twice the signed area of the triangles named by an index list -/
+noncomputable def sumTri (vs : List (Pt2 ℝ)) (out : List Nat) : ℝ :=
+  ((triples out).map fun t =>
+    match t with
+    | [i, j, k] => Spec.cross3 (vs.getD i d0) (vs.getD j d0) (vs.getD k d0)
+    | _ => 0).sum
+
+theorem sumTri_run (vs : List (Pt2 ℝ)) (poly : Poly ℝ) (hc : Consistent vs poly) :
+    sumTri vs (triangulate poly) = ((run poly).1.map triArea2).sum := by
+  rw [sumTri, triangulate_eq, triples_labels, List.map_map]
+  congr 1
+  apply List.map_congr_left
+  intro tr htr
+  have hm := (clipRun_mem poly.length poly (refCcw poly)).1 tr htr
+  simp only [Function.comp, triLabels, triArea2]
+  rw [(hc _ hm.1).2, (hc _ hm.2.1).2, (hc _ hm.2.2).2]
+
+/-- **C03, area conservation.** The emitted triangles and the part of the polygon not yet cut
+add up, in signed area, to the input polygon — whether or not the run completes. -/
+theorem area_conservation (vs : List (Pt2 ℝ)) (poly : Poly ℝ) (hc : Consistent vs poly) :
+    area2 (pts poly) = sumTri vs (triangulate poly) + area2 (pts (run poly).2) := by
+  rw [sumTri_run vs poly hc]
+  exact clipRun_area poly.length poly (refCcw poly)
+
+/-- **C03, complete runs.** When n-2 triangles come out, their signed areas sum to exactly the
+polygon's signed area. -/
+theorem complete_area (vs : List (Pt2 ℝ)) (poly : Poly ℝ) (hc : Consistent vs poly)
+    (hn : 3 ≤ poly.length) (hcomplete : (triangulate poly).length = 3 * (poly.length - 2)) :
+    sumTri vs (triangulate poly) = area2 (pts poly) := by
+  have hlen := triangulate_length poly
+  have hres : (run poly).2.length < 3 := by
+    have := clipRun_residual_ge poly.length poly (refCcw poly) ([] : List (Tri3 ℝ)) (by omega)
+    simp only [run] at hlen ⊢; omega
+  have := area_conservation vs poly hc
+  have hz : area2 (pts (run poly).2) = 0 := area2_short _ (by simpa [pts] using hres)
+  rw [hz] at this
+  linarith
+
+/-- … and for a polygon that turns counter-clockwise at its left-most vertex every one of those
+triangles has positive area, so the polygon's area is the sum of the (unsigned) triangle areas:
+the triangles cannot overlap without failing to cover, and conversely. -/
+theorem complete_ccw_positive (vs : List (Pt2 ℝ)) (poly : Poly ℝ) (hc : Consistent vs poly)
+    (hccw : refCcw poly = true) :
+    ∀ t ∈ triples (triangulate poly), ∃ i j k, t = [i, j, k] ∧
+      0 < Spec.cross3 (vs.getD i d0) (vs.getD j d0) (vs.getD k d0) := by
+  intro t ht
+  obtain ⟨i, j, k, rfl, h⟩ := triangulate_orientation vs poly hc t ht
+  rw [hccw, isCcw_iff] at h
+  exact ⟨i, j, k, rfl, h⟩
+
+/-- the public entry points: `triangulate2d` on the list, `triangulate2d_rev` on the reversed list,
+both rejecting fewer than four vertices (the `assert!`) -/
+theorem triangulate2d_spec (vs : List (Pt2 ℝ)) :
+    (triangulate2d vs = none ↔ vs.length ≤ 3) ∧
+    (∀ out, triangulate2d vs = some out → (∀ i ∈ out, i < vs.length) ∧ out.length ≤ 3 * (vs.length - 2)) ∧
+    (∀ out, triangulate2dRev vs = some out → (∀ i ∈ out, i < vs.length) ∧ out.length ≤ 3 * (vs.length - 2)) := by
+  have hlen : (indexed vs).length = vs.length := by simp [indexed]
+  refine ⟨?_, ?_, ?_⟩
+  · unfold triangulate2d; split <;> simp <;> omega
+  · intro out h
+    unfold triangulate2d at h
+    split at h
+    · injection h with h; subst h
+      refine ⟨triangulate_indices vs _ (indexed_consistent vs), ?_⟩
+      have := triangulate_length_le (indexed vs) (by omega)
+      rwa [hlen] at this
+    · simp at h
+  · intro out h
+    unfold triangulate2dRev at h
+    split at h
+    · injection h with h; subst h
+      refine ⟨triangulate_indices vs _ (reverse_consistent vs _ (indexed_consistent vs)), ?_⟩
+      have := triangulate_length_le (indexed vs).reverse (by simp; omega)
+      simpa [hlen] using this
+    · simp at h
 
 end ScadVerif.C03
